@@ -80,9 +80,13 @@ def mw(P):
     A('//@   ensures[C16] handler_runs_once_after_all_middlewares: callret("godi.Provider.CreateScope", 0, 1) == nil && (forall c int :: 0 <= c && c < ncalls("fnvar:mw") ==> callret("fnvar:mw", c, 0) == nil) ==>')
     A('//@        ncalls("fnvar:mw") == len(mws) && ncalls("%s") == 1 && ncalls("field:Config.ErrorHandler") == 0 && %s' % (P['next'], P['nextarg']))
     A('//@   ensures[C16] scope_attached_before_user_code: %s' % P['attached'])
+    if P['pkg'] == 'gin':
+        # gin runs the rest of the handler chain when a middleware merely returns: a rejected request has to be aborted
+        A('//@   ensures[C16] rejected_request_is_aborted: ncalls("field:Config.ErrorHandler") == 1 ==> ncalls("gin.Context.Abort") >= 1 && callarg("gin.Context.Abort", ncalls("gin.Context.Abort") - 1, 0, "*gin.Context") == c && calltime("field:Config.ErrorHandler", 0) < calltime("gin.Context.Abort", ncalls("gin.Context.Abort") - 1)')
+        A('//@   ensures[C16] served_request_is_not_aborted: ncalls("field:Config.ErrorHandler") == 0 ==> ncalls("gin.Context.Abort") == 0')
     A('//@   ensures[C16] close_error_reported: ncalls("field:Config.CloseErrorHandler") <= 1 && (ncalls("field:Config.CloseErrorHandler") == 1 ==> callarg("field:Config.CloseErrorHandler", 0, 1) == callret("godi.Scope.Close", 0, 0) && callret("godi.Scope.Close", 0, 0) != nil)')
     A('//@   loop 1')
-    A('//@     invariant progress: ncalls("fnvar:mw") == idx && ncalls("%s") == 0 && ncalls("field:Config.ErrorHandler") == 0 && ncalls("godi.Scope.Close") == 0' % P['next'])
+    A('//@     invariant progress: ncalls("fnvar:mw") == idx && ncalls("%s") == 0 && ncalls("field:Config.ErrorHandler") == 0 && ncalls("godi.Scope.Close") == 0' % P['next'] + (' && ncalls("gin.Context.Abort") == 0' if P['pkg'] == 'gin' else ''))
     A('//@        && ncalls("godi.Provider.CreateScope") == 1 && callret("godi.Provider.CreateScope", 0, 1) == nil && scope == callret("godi.Provider.CreateScope", 0, 0) && ncalls("field:Config.CloseErrorHandler") == 0')
     A('//@        && %s' % P['loopattached'])
     A('//@     invariant in_order: forall c int :: 0 <= c && c < idx ==> callarg("fnvar:mw", c, 0) == mws[c] && callarg("fnvar:mw", c, 1) == scope && callret("fnvar:mw", c, 0) == nil')
@@ -128,7 +132,7 @@ PK = {
    hcaptured='r != nil', hreqctx='pure("http.Request.Context", r)', herridx=3),
 }
 PK['chi'] = dict(PK['http'], pkg='chi')
-PK['gin'] = dict(pkg='gin', extra='//@ func gin.Context.Next\n//@   nocheck\n//@   interferes\n//\n',
+PK['gin'] = dict(pkg='gin', extra='//@ func gin.Context.Next\n//@   nocheck\n//@   interferes\n//@ func gin.Context.Abort\n//@   nocheck\n//@   nopanic\n//\n',
    unit='ScopeMiddleware$1', captured='c != nil && c.Request != nil', mwtype='func(godi.Scope, *gin.Context) error', lets=['req0 = c.Request'],
    reqctx0='pure("http.Request.Context", req0)', erridx=2, next='gin.Context.Next',
    nextarg='callarg("gin.Context.Next", 0, 0) == c',
